@@ -31,6 +31,9 @@ CHECKS = {
  "C13": dict(engine="irsim", category="exploration", design="DESIGN.md section 6 (C13)", technique="deterministic simulation of two replicas: seeded edit histories routed to original or clone, isolation invariant after every op",
    text="History-only. A generated well-formed model is cloned (Model/Graph/Function/GraphView clone, deep_copy on/off, subgraph with/without allowed outer values, functionalize over 10 passes); at clone time the protos must be equal and the identity sets (graphs, nodes, values, shapes, types, metadata containers, collections) disjoint; then each of 10-40 Engine A edits is routed to one replica and the canonical snapshot of the other must not change.",
    note="tensors / non-graph Attr / ModelConfiguration may be shared; meta values are shared unless deep_copy; opset_imports is outside the statement; unsorted graphs only where cloning silently succeeds."),
+ "C20": dict(engine="irsim", category="exploration", design="DESIGN.md section 6 (C20)", technique="deterministic simulation: the same seeded history run plain / under scheduled nested journals with exception exits / plain again; differential state and outcome comparison, call observer under the wrappers",
+   text="The scheduler inserts journal enter / exit / exception-exit events (nesting <= 3) at arbitrary positions of a seeded Engine A history; per-op outcomes and snapshots must equal the un-journaled run, every completed instrumented call must have its entry in every active journal, class attributes must be restored after the outermost exit, a plain replay afterwards must agree, and entries must not keep IR objects alive.",
+   note="instrumented-operation table read from the library; journal clock replaced by a step counter; process-global class state is checked pristine at the start of every run."),
 }
 NA = [
  ("C02", "pure function of the input proto: no schedule, clock, fault, crash point or history for a simulator to vary (DESIGN.md section 7)"),
